@@ -194,6 +194,9 @@ func (g *gen) chanVariantTypes(name string, typs []types.Type) ([]types.Type, []
 		if !ok {
 			return nil, nil, fmt.Errorf("%s, the argument, %s, is not of type chan", name, typs[0])
 		}
+		if chanTyp.Dir() == types.SendOnly {
+			return nil, nil, fmt.Errorf("%s cannot receive from a send only channel: %s", name, typs[i])
+		}
 		chanTyps[i] = chanTyp.Elem()
 		if i != 0 {
 			if !types.Identical(chanTyps[i], chanTyps[i-1]) {
@@ -216,6 +219,9 @@ func (g *gen) sliceOfChanType(name string, typs []types.Type) (types.Type, types
 	sliceOfChanTyp, ok := sliceTyp.Elem().(*types.Chan)
 	if !ok {
 		return nil, types.SendRecv, fmt.Errorf("%s, the argument, %s, is not of type slice of chan", name, typs[0])
+	}
+	if sliceOfChanTyp.Dir() == types.SendOnly {
+		return nil, types.SendRecv, fmt.Errorf("%s cannot receive from a send only channel: %s", name, typs[0])
 	}
 	elemType := sliceOfChanTyp.Elem()
 	return elemType, sliceOfChanTyp.Dir(), nil
